@@ -111,7 +111,23 @@ def c15_1(c: Ctx) -> None:
     from sa.cfg import search
 
     arms = [n for n in g.live_nodes() if n.kind == 'except' and n.ast.type is not None and 'TimeoutError' in U(n.ast.type)]
-    barrier = {head.id} | {n.id for n in arms}
+    # an early `return` is as good as the loop's exit when it sits directly under a test that establishes the whole idle predicate (flag set, nothing started, nothing
+    # pending; further conjuncts only make it rarer) with nothing in between that suspends
+    early_ok: set[int] = set()
+    for rn in [n for n in g.live_nodes() if n.kind == 'return' and not q.lexically_in(n.ast, head.ast, 'body')]:
+        gi = q.enclosing(rn.ast, (ast.If,))
+        if gi is None or not q.lexically_in(rn.ast, gi, 'body') or gi.body[0] is not rn.ast:
+            continue
+        lits = _nnf_disjuncts(ast.UnaryOp(op=ast.Not(), operand=gi.test))
+        have = idle_disjuncts(ast.UnaryOp(op=ast.Not(), operand=gi.test), self_) if lits is not None else set()
+        if need <= have and not any(isinstance(x, ast.Await) for x in ast.walk(gi.test)):
+            early_ok.add(rn.id)
+            c.ok(where(u, rn.ast), f'early return only under the full idle test ({U(gi.test)[:80]})')
+        else:
+            c.fail(u, f'early return under `{U(gi.test)[:70]}`, which does not establish {sorted(need - have)}', 'wait_until_idle can return while the bus still has ' + '/'.join(sorted(need - have))
+                   + ' events: the idle flag is stale between a dispatch and the run loop\'s next step, and an event the run loop has already taken off the queue is in no queue', node=rn.ast)
+            early_ok.add(rn.id)  # reported here; not again as "bypasses the loop"
+    barrier = {head.id} | {n.id for n in arms} | early_ok
     p = search([(g.entry, ())], is_target=lambda n, d: n.kind == 'exit', is_barrier=lambda n, d: n.id in barrier)
     if p is None:
         c.ok(where(u), 'no normal return bypasses the re-check loop (other than the TimeoutError arm)')
